@@ -102,19 +102,20 @@ def run(ctx):
     if not_driven:
         log("C08: public methods the recorder does not drive: %s" % not_driven)
 
-    # 1. the specification by itself
-    stride = 8 if ctx.quick else 1
-    cfg = os.path.join(CODEC, "_A64AsmMC_%d.cfg" % os.getpid())
-    open(cfg, "w").write(open(os.path.join(CODEC, "A64AsmMC.cfg")).read().replace("Stride = 1", "Stride = %d" % stride)
-                         .replace("Offset = 0", "Offset = %d" % (ctx.seed % stride)))
-    try:
-        r = tlc("A64AsmMC", cfg=os.path.basename(cfg), cwd=CODEC, workers=8, timeout=1200)
-    finally:
-        os.remove(cfg)
-    tlc_must_pass(r, "A64AsmMC (logical-immediate table, diagrams)")
-    ctx.tlc_stats(r, "A64AsmMC stride %d" % stride)
-    ctx.add("logical_immediate_triples_checked", r.distinct)
-    log(f"TLC A64AsmMC: {r.distinct} triples canonical, {r.seconds:.0f}s")
+    # 1. the specification by itself (in the background, as is the enumeration + replay of label programs)
+    pool = concurrent.futures.ThreadPoolExecutor(max_workers=2)
+    stride = 16 if ctx.quick else 1
+
+    def design_check():
+        cfg = os.path.join(CODEC, "_A64AsmMC_%d.cfg" % os.getpid())
+        open(cfg, "w").write(open(os.path.join(CODEC, "A64AsmMC.cfg")).read().replace("Stride = 1", "Stride = %d" % stride)
+                             .replace("Offset = 0", "Offset = %d" % (ctx.seed % stride)))
+        try:
+            return tlc("A64AsmMC", cfg=os.path.basename(cfg), cwd=CODEC, workers=4, timeout=1500)
+        finally:
+            os.remove(cfg)
+    f_mc = pool.submit(design_check)
+    f_lab = pool.submit(label_programs, ctx)
 
     # 2. record + judge
     recfile = os.path.join(ctx.work, "records.ndjson")
@@ -122,7 +123,7 @@ def run(ctx):
     if p.returncode != 0 or '"summary"' not in p.stdout:
         raise ToolError("va64 record failed: %s %s" % (p.stdout[-1000:], p.stderr[-2000:]))
     summ = json.loads(p.stdout.strip().splitlines()[-1])
-    lines, res = judge_chunks(ctx, recfile, 6000 if ctx.quick else 25000, "chunk")
+    lines, res = judge_chunks(ctx, recfile, 9000 if ctx.quick else 25000, "chunk")
     recs = [json.loads(l) for l in lines]
     verdict = ["ok"] * len(recs)
     expected = {}
@@ -242,7 +243,12 @@ def run(ctx):
     negative_controls(ctx, recs, verdict)
 
     # 4. labels
-    labels(ctx)
+    labels(ctx, *f_lab.result())
+    r = f_mc.result()
+    tlc_must_pass(r, "A64AsmMC (logical-immediate table, diagrams)")
+    ctx.tlc_stats(r, "A64AsmMC stride %d" % stride)
+    ctx.add("logical_immediate_triples_checked", r.distinct)
+    log(f"TLC A64AsmMC: {r.distinct} triples canonical, {r.seconds:.0f}s")
     ctx.extra["seconds"] = round(time.time() - t0, 1)
     ctx.assumptions += [
         "registers are the values the API can construct: Register::new(0..30), REG_ZERO, REG_SP, NeonRegister::new(0..31)",
@@ -254,37 +260,38 @@ def run(ctx):
 
 
 def negative_controls(ctx, recs, verdict):
-    good = [n for n, rec in enumerate(recs) if verdict[n] == "ok" and rec["ok"] and len(rec["w"]) == 1][:400]
-    ref = [n for n, rec in enumerate(recs) if verdict[n] == "ok_refused"][:50]
+    """one TLC run over clean records + the same records with one flipped bit + an accepted non-encodable call:
+    the trace spec must pass the first part and reject exactly the two corrupted records"""
+    good = [n for n, rec in enumerate(recs) if verdict[n] == "ok" and rec["ok"] and len(rec["w"]) == 1][:300]
+    ref = [n for n, rec in enumerate(recs) if verdict[n] == "ok_refused" and rec["m"] not in A.MACROS][:50]
     if len(good) < 50 or not ref:
         raise ToolError("not enough clean records for the negative controls")
     rnd = rng(ctx.seed, "c08-neg")
     base = [recs[n] for n in good]
-    out = []
-
-    def run_one(name, rows, must_reject):
-        p = os.path.join(ctx.work, "neg_%s.ndjson" % name)
-        open(p, "w").write("\n".join(json.dumps(x) for x in rows) + "\n")
-        r = tlc("A64AsmTrace", cfg="A64AsmTrace.cfg", cwd=CODEC, workers=1, timeout=600, env={"RECS": p}, heap="2g")
-        if r.timed_out or (not r.ok and "Conforms" not in (r.violation or "")):
-            raise ToolError("negative control %s: TLC failed: %s\n%s" % (name, r.violation, r.out[-1500:]))
-        rejected = not r.ok
-        out.append({"control": name, "rejected": rejected})
-        if rejected != must_reject:
-            raise ToolError("negative control %s: rejected=%s, wanted %s: the trace spec is %s" % (
-                name, rejected, must_reject, "vacuous" if must_reject else "wrong on clean records"))
-    run_one("clean", base, False)
     k, bit = rnd.randrange(len(base)), rnd.randrange(32)
-    flipped = json.loads(json.dumps(base))
-    w = A.word_of(flipped[k]["w"][0]) ^ (1 << bit)
-    flipped[k]["w"][0] = [w >> 16, w & 0xffff]
-    run_one("flip_bit%d_of_%s" % (bit, flipped[k]["m"]), flipped, True)
-    acc = json.loads(json.dumps(base))
+    flipped = json.loads(json.dumps(base[k]))
+    w = A.word_of(flipped["w"][0]) ^ (1 << bit)
+    flipped["w"][0] = [w >> 16, w & 0xffff]
     bad = dict(recs[ref[rnd.randrange(len(ref))]])
-    bad["ok"], bad["w"] = True, [[0, 0]] if bad["m"] not in A.MACROS else [[0, 0]]
-    acc.insert(len(acc) // 2, bad)
-    run_one("accepted_nonencodable_%s" % bad["m"], acc, True)
+    bad["ok"], bad["w"] = True, [[0, 0]]
+    rows = base + [flipped, bad]
+    p = os.path.join(ctx.work, "negative_controls.ndjson")
+    open(p, "w").write("\n".join(json.dumps(x) for x in rows) + "\n")
+    r = tlc("A64AsmTrace", cfg="A64AsmTraceCollect.cfg", cwd=CODEC, workers=1, timeout=600, env={"RECS": p}, heap="2g")
+    tlc_must_pass(r, "negative controls")
+    v = {k: j["v"] for k, j in verdicts_of(r).items()}
+    rs = tlc("A64AsmTrace", cfg="A64AsmTrace.cfg", cwd=CODEC, workers=1, timeout=600, env={"RECS": p}, heap="2g") if not ctx.quick else None
+    out = [{"control": "clean_records_accepted", "records": len(base), "rejected": any(x in v for x in range(1, len(base) + 1))},
+           {"control": "flip_bit%d_of_%s" % (bit, flipped["m"]), "rejected": v.get(len(base) + 1) == "mismatch"},
+           {"control": "accepted_nonencodable_%s" % bad["m"], "rejected": v.get(len(base) + 2) == "silent_accept"}]
+    if rs is not None:
+        out.append({"control": "strict_cfg_invariant_Conforms", "rejected": (not rs.ok) and "Conforms" in (rs.violation or "")})
     ctx.extra["negative_controls"] = out
+    if out[0]["rejected"]:
+        raise ToolError("negative controls: a clean record was rejected: %s" % v)
+    for x in out[1:]:
+        if not x["rejected"]:
+            raise ToolError("negative control %s was accepted by A64AsmTrace: the trace spec is vacuous (%s)" % (x["control"], v))
 
 
 # ------------------------------------------------------------------------------------------------ labels
@@ -321,11 +328,10 @@ def branch_semantics_ok(it, at, target, texts):
     return False
 
 
-def labels(ctx):
+def label_programs(ctx):
     cfg = "A64AsmLabels_quick.cfg" if ctx.quick else "A64AsmLabels_thorough.cfg"
-    r = tlc("A64AsmLabels", cfg=cfg, cwd=CODEC, workers=8, timeout=2400, heap="8g")
+    r = tlc("A64AsmLabels", cfg=cfg, cwd=CODEC, workers=4, timeout=2400, heap="8g")
     tlc_must_pass(r, "A64AsmLabels " + cfg)
-    ctx.tlc_stats(r, "A64AsmLabels " + cfg)
     rows = []
     for s in r.prints:
         try:
@@ -338,7 +344,7 @@ def labels(ctx):
         raise ToolError("A64AsmLabels printed no programs")
     # deterministic order, then parallel replay
     rows.sort(key=lambda j: json.dumps(j["prog"]))
-    nproc = max(2, min(8, NCPU // 2))
+    nproc = max(2, min(6, NCPU // 2))
     parts = [rows[k::nproc] for k in range(nproc)]
 
     def replay(k):
@@ -353,6 +359,12 @@ def labels(ctx):
         return [json.loads(l) for l in open(po)]
     with concurrent.futures.ThreadPoolExecutor(max_workers=nproc) as ex:
         outs = list(ex.map(replay, range(nproc)))
+    return r, cfg, rows, parts, outs
+
+
+def labels(ctx, r, cfg, rows, parts, outs):
+    ctx.tlc_stats(r, "A64AsmLabels " + cfg)
+    nproc = len(parts)
     cnt = collections.Counter()
     pending = []        # (row, out) to adjudicate with llvm-mc
     for k in range(nproc):
@@ -394,7 +406,7 @@ def labels(ctx):
         for it, s in zip(items, o["sites"]):
             texts = txt[k:k + len(s[1])]
             k += len(s[1])
-            target = row["labs"][it[-1] - 1]
+            target = o["labs"][it[-1] - 1]         # where the implementation bound the label
             d = (target - s[0]) // 4
             if bad is None and not branch_semantics_ok(it, s[0], target, texts):
                 late = "unbound" if (d > 0 or it[0] == "Adr") else "bound"
